@@ -25,6 +25,7 @@ type mut struct {
 }
 
 var wave2 = os.Getenv("MUTGEN_WAVE") == "2"
+var wave3 = os.Getenv("MUTGEN_WAVE") == "3"
 
 func main() {
 	root, out := os.Args[1], os.Args[2]
@@ -57,6 +58,57 @@ func main() {
 			add := func(start, end token.Pos, repl, op string) {
 				s, e := off(start), off(end)
 				ms = append(ms, mut{rel, s, e, string(src[s:e]), repl, op, fset.Position(start).Line, fn})
+			}
+			retBool := false
+			if fd.Type.Results != nil && len(fd.Type.Results.List) == 1 {
+				if id, ok := fd.Type.Results.List[0].Type.(*ast.Ident); ok && id.Name == "bool" && len(fd.Type.Results.List[0].Names) <= 1 {
+					retBool = true
+				}
+			}
+			if wave3 {
+				ast.Inspect(fd.Body, func(n ast.Node) bool {
+					switch x := n.(type) {
+					case *ast.IfStmt:
+						c := string(src[off(x.Cond.Pos()):off(x.Cond.End())])
+						add(x.Cond.Pos(), x.Cond.End(), "!("+c+")", "negate-if")
+					case *ast.ReturnStmt:
+						if retBool && len(x.Results) == 1 {
+							if id, ok := x.Results[0].(*ast.Ident); !ok || (id.Name != "true" && id.Name != "false") {
+								c := string(src[off(x.Results[0].Pos()):off(x.Results[0].End())])
+								add(x.Results[0].Pos(), x.Results[0].End(), "!("+c+")", "negate-return")
+							}
+						}
+					case *ast.CallExpr:
+						for i := 0; i+1 < len(x.Args); i++ {
+							a, b := x.Args[i], x.Args[i+1]
+							simple := func(e ast.Expr) bool {
+								switch e.(type) {
+								case *ast.Ident, *ast.SelectorExpr, *ast.IndexExpr:
+									return true
+								}
+								return false
+							}
+							if simple(a) && simple(b) {
+								sa, sb := string(src[off(a.Pos()):off(a.End())]), string(src[off(b.Pos()):off(b.End())])
+								if sa != sb {
+									add(a.Pos(), b.End(), sb+string(src[off(a.End()):off(b.Pos())])+sa, "swap-args")
+								}
+							}
+						}
+					case *ast.CaseClause:
+						if x.List != nil && len(x.Body) > 0 { // not the default clause: drop its body (the case does nothing)
+							add(x.Body[0].Pos(), x.Body[len(x.Body)-1].End(), "", "empty-case")
+						}
+					case *ast.IndexExpr:
+						if be, ok := x.Index.(*ast.BinaryExpr); ok && (be.Op == token.ADD || be.Op == token.SUB) {
+							if bl, ok := be.Y.(*ast.BasicLit); ok && bl.Kind == token.INT {
+								add(be.Pos(), be.End(), string(src[off(be.X.Pos()):off(be.X.End())]), "index-drop-offset")
+							}
+						}
+					}
+					return true
+				})
+				continue
 			}
 			ast.Inspect(fd.Body, func(n ast.Node) bool {
 				switch x := n.(type) {
